@@ -208,7 +208,7 @@ theorem bwdPass_datesSet (env : Env) (fuel : Nat) (stk : List Uid) (σ : SS) (t 
     (fun _ _ _ _ => trivial) (fun _ _ _ _ _ => trivial) fuel stk σ t m σ' trivial hi h
 
 /-- all members are done once the roots have been passed -/
-theorem members_done (env : Env) (σ : SS) (mem : List Uid) (hm : members env = some mem) (hcl : DoneClosed env σ)
+theorem members_done_c06 (env : Env) (σ : SS) (mem : List Uid) (hm : members env = some mem) (hcl : DoneClosed env σ)
     (hroots : ∀ r ∈ env.roots, r ∈ σ.done) : ∀ t ∈ mem, t ∈ σ.done := by
   intro t ht
   obtain ⟨rt, hrt, l, hl, htl⟩ := (members_spec env mem hm).2 t ht
@@ -229,7 +229,7 @@ theorem forwardCalc_dates (env : Env) (f0 : Uid → Fields) (res0 : List (Option
   intro t ht
   rw [memberList_eq env mem hm] at ht
   subst ho
-  exact hI.2 t (members_done env σ mem hm hI.1 hroots t ht)
+  exact hI.2 t (members_done_c06 env σ mem hm hI.1 hroots t ht)
 
 theorem backwardCalc_dates (env : Env) (f0 : Uid → Fields) (res0 : List (Option Nat × Cal)) (o : Output)
     (h : backwardCalc env f0 res0 = .ok o) :
@@ -246,7 +246,7 @@ theorem backwardCalc_dates (env : Env) (f0 : Uid → Fields) (res0 : List (Optio
   intro t ht
   rw [memberList_eq env mem hm] at ht
   subst ho
-  exact hI.2 t (members_done env σ mem hm hI.1 hroots t ht)
+  exact hI.2 t (members_done_c06 env σ mem hm hI.1 hroots t ht)
 
 /-! ### congruence of loops and passes -/
 
@@ -574,5 +574,89 @@ theorem bwdPrecheck_setClock (env : Env) (clk : Nat → Time) (f0 : Uid → Fiel
   unfold bwdPrecheck
   simp only [members_setClock, isolationOk_setClock, checkLoops_setClock]
 
+
+
+/-- invariant of the simulation of two runs that differ in the clock only: the ledger is sound (so that "used" is
+    never negative) and a task that is not done yet still has the fields `F` it started with -/
+def ClockInv (env : Env) (F : Uid → Fields) (σ : SS) : Prop :=
+  LedgerOK env σ ∧ ∀ x, x ∉ σ.done → σ.f x = F x
+
+theorem fwdPlace_clockInv (env : Env) (F : Uid → Fields) (σ σ' : SS) (t : Uid) (v : Time)
+    (hi : ClockInv env F σ) (ht : t ∉ σ.done) (h : fwdPlace env σ t v = .ok σ') : ClockInv env F σ' := by
+  refine ⟨fwdPlace_ledger env σ σ' t v hi.1 h, ?_⟩
+  intro x hx
+  have he := (fwdPlace_ext env σ σ' t v ht h).1
+  rw [he.untouched x hx]
+  exact hi.2 x (fun hc => hx (he.done_sub hc))
+
+theorem prepare_leaf (env : Env) (f0 : Uid → Fields) (mem : List Uid) (t : Uid)
+    (hl : (env.info t).children.isEmpty = true) : prepare env f0 mem t = f0 t := by
+  simp [prepare, hl]
+
+/-- under the clock hypotheses two forward passes that differ in the clock only are the same function on the
+    states the run goes through -/
+theorem fwdPass_clock (env : Env) (f0 : Uid → Fields) (clk clk' : Nat → Time) (mem : List Uid)
+    (hf : env.flagsOK) (hm : members env = some mem)
+    (h1 : ClockBefore env f0 clk) (h2 : ClockBefore env f0 clk')
+    (fuel : Nat) (stk : List Uid) (σ : SS) (t : Uid) (m : Time) (hq : t ∈ mem)
+    (hi : ClockInv (env.setClock clk) (prepare env f0 mem) σ) (hp : env.bound ≤ m) :
+    fwdPass (env.setClock clk) fuel stk σ t m = fwdPass (env.setClock clk') fuel stk σ t m := by
+  have hml := memberList_eq env mem hm
+  have hmemb : ∀ t, (env.info t).member = true ↔ t ∈ mem := fun t => by rw [← hml]; exact hf t
+  rw [fwdPass_eq_gPass, fwdPass_eq_gPass]
+  refine gPass_congr (env.setClock clk) (env.setClock clk') (fun u => (env.info u).preds)
+    (fun u => (env.info u).children) maxEnds (fun σ t _ v => fwdPlace (env.setClock clk) σ t v)
+    (fun σ t _ v => fwdPlace (env.setClock clk') σ t v) (fwdPlace_ext' _) (fun _ => rfl)
+    (ClockInv (env.setClock clk) (prepare env f0 mem)) (fun t => t ∈ mem) (fun m => env.bound ≤ m)
+    ?_ ?_ ?_ ?_ ?_ fuel stk σ t m hq hi hp
+  · intro a b x _ v _ ha hx _ hh
+    exact fwdPlace_clockInv _ _ a b x v ha hx hh
+  · intro x c hx hc
+    exact members_children env mem hm x hx c hc
+  · intro x p hx _ he
+    exact (hmemb p).1 (he.trans ((hmemb x).2 hx))
+  · intro a l v hv
+    exact Rat.le_trans hv (maxEnds_ge a l v)
+  · intro a x _ v hx ha _ hv hxd
+    refine fwdPlace_clock env clk clk' a x v ?_ ?_ ha.1.pos ?_
+    · exact fun k => Int.lt_of_lt_of_le (h1.1 k) (dayOf_mono hv)
+    · exact fun k => Int.lt_of_lt_of_le (h2.1 k) (dayOf_mono hv)
+    · intro s hs he hl
+      rw [ha.2 x hxd, prepare_leaf env f0 mem x hl] at hs he
+      exact ⟨fun k => Rat.le_of_lt (lt_of_dayOf_lt (h1.2.1 x (hml ▸ hx) s hs he k)),
+        fun k => Rat.le_of_lt (lt_of_dayOf_lt (h2.2.1 x (hml ▸ hx) s hs he k))⟩
+
+theorem fwdRun_clock (env : Env) (f0 : Uid → Fields) (res0 : List (Option Nat × Cal)) (clk clk' : Nat → Time)
+    (hf : env.flagsOK) (h1 : ClockBefore env f0 clk) (h2 : ClockBefore env f0 clk') :
+    fwdRun (env.setClock clk) f0 res0 = fwdRun (env.setClock clk') f0 res0 := by
+  unfold fwdRun
+  simp only [members_setClock, prepare_setClock, Env.setClock_n, Env.setClock_roots, Env.setClock_bound]
+  cases hm : members env with
+  | none => simp only [bind, Except.bind, throw, throwThe, MonadExceptOf.throw]
+  | some mem =>
+    simp only [bind, Except.bind, pure, Except.pure]
+    rw [passList_congr (ClockInv (env.setClock clk) (prepare env f0 mem))
+      (fun σ r => fwdPass (env.setClock clk) (env.n + 1) [] σ r env.bound)
+      (fun σ r => fwdPass (env.setClock clk') (env.n + 1) [] σ r env.bound) env.roots ?_ ?_ _ ?_]
+    · intro a x b hx ha hh
+      have hml := memberList_eq env mem hm
+      have hmemb : ∀ t, (env.info t).member = true ↔ t ∈ mem := fun t => by rw [← hml]; exact hf t
+      exact fwdPass_inv (env.setClock clk) (ClockInv (env.setClock clk) (prepare env f0 mem)) (fun t => t ∈ mem)
+        (fun s s' t v _ hi ht _ h => fwdPlace_clockInv _ _ s s' t v hi ht h)
+        (fun t c hq hc => members_children env mem hm t hq c hc)
+        (fun t p hq _ he => (hmemb p).1 (he.trans ((hmemb t).2 hq))) _ _ _ _ _ _
+        (members_root env mem hm x hx) ha hh
+    · intro a x hx ha
+      exact fwdPass_clock env f0 clk clk' mem hf hm h1 h2 _ _ a x _ (members_root env mem hm x hx) ha Rat.le_refl
+    · exact ⟨LedgerOK.init _ _ rfl, fun _ _ => rfl⟩
+
+/-- C06, clock independence: under the clock hypotheses the whole forward result is the same for both clocks -/
+theorem forwardCalc_clock (env : Env) (f0 : Uid → Fields) (res0 : List (Option Nat × Cal)) (clk clk' : Nat → Time)
+    (hf : env.flagsOK) (h1 : ClockBefore env f0 clk) (h2 : ClockBefore env f0 clk') :
+    forwardCalc (env.setClock clk) f0 res0 = forwardCalc (env.setClock clk') f0 res0 := by
+  unfold forwardCalc
+  rw [fwdRun_clock env f0 res0 clk clk' hf h1 h2,
+    fwdPrecheck_eq_bwd (env.setClock clk) f0 h1.2.2, fwdPrecheck_eq_bwd (env.setClock clk') f0 h2.2.2,
+    bwdPrecheck_setClock, bwdPrecheck_setClock]
 
 end Pj
